@@ -1,0 +1,46 @@
+//! Verification hooks (cargo feature `verif`, off by default).
+//!
+//! Writes one NDJSON event per linearisation point of the reader, broker and
+//! responder tasks to the file named by `LSP4SPL_VERIF_TRACE`.
+//! Events carry a per-task sequence number; cross-task order is not implied.
+use serde_json::{json, Value};
+use std::{
+    collections::HashMap,
+    fs::File,
+    io::Write,
+    sync::{Mutex, OnceLock},
+};
+
+struct Tracer {
+    file: File,
+    seq: HashMap<&'static str, u64>,
+}
+
+static TRACER: OnceLock<Option<Mutex<Tracer>>> = OnceLock::new();
+
+fn tracer() -> &'static Option<Mutex<Tracer>> {
+    TRACER.get_or_init(|| {
+        std::env::var_os("LSP4SPL_VERIF_TRACE")
+            .and_then(|path| File::create(path).ok())
+            .map(|file| {
+                Mutex::new(Tracer {
+                    file,
+                    seq: HashMap::new(),
+                })
+            })
+    })
+}
+
+/// Records the event `ev` of task `task` (`R` reader, `B` broker, `W` responder).
+pub fn emit(task: &'static str, ev: &str, fields: Value) {
+    if let Some(tracer) = tracer() {
+        let mut tracer = tracer.lock().expect("Trace lock poisoned");
+        let seq = tracer.seq.entry(task).or_insert(0);
+        *seq += 1;
+        let mut record = json!({"task": task, "seq": *seq, "ev": ev});
+        if let (Some(record), Value::Object(fields)) = (record.as_object_mut(), fields) {
+            record.extend(fields);
+        }
+        let _ = writeln!(tracer.file, "{}", record);
+    }
+}
